@@ -1551,6 +1551,9 @@ struct Explorer {
           for (auto& s : real) q += ParseCmd(s).id() + " ";
           x.detail = "-n lists {" + l + "} but the real build runs {" + q + "}";
           x.facts.set("restat_pruning_in_real_build", restat_pruned);
+          // the manifest itself is out of date: ninja "regenerates" it and, in a dry run, stops there
+          x.facts.set("dry_run_stopped_after_listing_the_manifest_regeneration",
+                      listed_set.size() == 1 && ParseCmd(*listed_set.begin()).id() == "build.ninja" && real.count(*listed_set.begin()) > 0);
           out->push_back(x);
         }
         // order respects dependencies
